@@ -527,4 +527,5 @@ pub fn generate(rng: &mut Rng, tier: Tier, emit: &mut dyn FnMut(String)) {
         malformed(rng, 3, emit);
     }
     carrier::generate(rng, tier, emit);
+    super::external::generate_conv(rng, 2_000 * scale, emit);
 }
